@@ -88,7 +88,7 @@ def run(ck, prop, stream, families_note, variants=None, judge=None, theorems=Non
     ck.cov["checker_cmd"] = "extract && lake build " + " ".join(mods + ["driver"]) + " && #print axioms audit; harness " + stream + " | driver (Spec.run) | compare"
     ck.cov["trusted_base"] = TRUSTED_COMMON + [
         "lean/MajoranaVerif/Spec/Run.lean is the oracle: one instruction at a time in program order; ret or running past the last instruction ends the run",
-        "lean/MajoranaVerif/Model/SeqMachine.lean, Mmu.lean, Mvp3.lean, Mvp4.lean, Mvp5.lean: hand-written cycle-accurate machine models of proc/mvp1..mvp5 and of the superscalar proc/mvp6-0 (Model/Mvp60.lean, Mvp60Fast.lean; eu = wu = 1..4) (built from regenerated instruction semantics, latencies and constants); the theorems are about them; tied to the Go machines by exact agreement of status, cycle count and final state on every generated case (fields m1..m5 and m60pK of the driver output; the MVP-6.0 model is compared with the GO run, wrong results included)",
+        "lean/MajoranaVerif/Model/SeqMachine.lean, Mmu.lean, Mvp3.lean, Mvp4.lean, Mvp5.lean: hand-written cycle-accurate machine models of proc/mvp1..mvp5 and of the superscalar proc/mvp6-0, mvp6-1, mvp6-2 (Model/Mvp60.lean, Mvp60Fast.lean, Mvp61.lean, Mvp62.lean) (built from regenerated instruction semantics, latencies and constants); the theorems are about them; tied to the Go machines by exact agreement of status, cycle count and final state on every generated case (fields m1..m5 and m60pK/m61pK/m62pK of the driver output; the superscalar models are compared with the GO run, wrong results included)",
         "Go harness worker pool, tick budget (verif hook Context.VerifTick, K=8·MemoryAccess·(steps+64)) and wall-clock watchdog",
         "known-finding trigger predicates in checklib/cpucheck.py (decidable predicates of the reference run)"]
     if not (okd and okh):
